@@ -79,6 +79,20 @@ theorem C14_reopen_rejected_runCommand (s : EState) (m : Msg) (b : Bundler) (hc 
   simp only [hc]
   exact C14_reopen_rejected s m b h
 
+/-- a bundle-level message whose key names no open run is refused with IllegalMessageSequence and changes
+    NOTHING -- it is never applied to a run registered under another key -/
+theorem C14_unknown_key_rejected (s : EState) (m : Msg) (h : getBundler s m = none) :
+    cmdCreate s m = (s, .raised .illegalSeq) ∧ cmdSave s m = (s, .raised .illegalSeq) ∧
+    cmdDrop s m = (s, .raised .illegalSeq) ∧ cmdMonitor s m = (s, .raised .illegalSeq) ∧
+    cmdUnmonitor s m = (s, .raised .illegalSeq) ∧ cmdCloseRun s m = (s, .raised .illegalSeq) := by
+  refine ⟨?_, ?_, ?_, ?_, ?_, ?_⟩
+  · unfold cmdCreate; simp only [h]
+  · unfold cmdSave; simp only [h]
+  · unfold cmdDrop; simp only [h]
+  · unfold cmdMonitor; simp only [h]
+  · unfold cmdUnmonitor; simp only [h]
+  · unfold cmdCloseRun; simp only [h]
+
 /-- the registered keys stay pairwise distinct (so a key names at most one open run), for every plan / script -/
 theorem C14_keys_distinct (maxArr : Nat) (sc : Script) (fuel : Nat) (s0 : EState) (plan : Gen) (h0 : Inv s0) :
     (keysOf (schedule maxArr sc fuel (startCall s0 plan))).Pairwise (· ≠ ·) ∧
